@@ -73,6 +73,9 @@ func universe(c Case) []starlark.Value {
 			keys[i] = &HKey{i, uint32(i)<<13 | 0x155}
 		case "fewchains":
 			keys[i] = &HKey{i, 0xabcd0000 | uint32(i&7)}
+		case "twochains":
+			// two full hashes that select neighbouring buckets: both bucket lists get dozens of buckets deep
+			keys[i] = &HKey{i, 0x5a5a0000 | uint32(i&1)}
 		case "zeroish":
 			keys[i] = &HKey{i, uint32(i % 3)}
 		case "seq":
@@ -647,6 +650,52 @@ func (r *runner) step(i int, op Op) error {
 		if res != starlark.Bool(want) {
 			return bad("%s returned %v, want %v", op.Name, res, want)
 		}
+	case "subset-self":
+		// Whole-set comparisons: the operand has as many elements as the receiver (and, for long chains, elements at
+		// every depth of every bucket list): s <= s, s.issubset(list(s) twice over), s <= s | {new}, all keys but one.
+		if r.isDict {
+			break
+		}
+		all := append([]int(nil), r.m.keys...)
+		twice := append(append([]int(nil), all...), all...)
+		check := func(what string, res starlark.Value, err error, want bool) error {
+			if err != nil {
+				return bad("%s failed: %v", what, err)
+			}
+			if res != starlark.Bool(want) {
+				return bad("%s returned %v, want %v (set of %d)", what, res, want, len(all))
+			}
+			return nil
+		}
+		res, err := r.call(helpers["le"], s, s)
+		if e := check("s <= s", res, err, true); e != nil {
+			return e
+		}
+		res, err = r.call(helpers["ge"], s, s)
+		if e := check("s >= s", res, err, true); e != nil {
+			return e
+		}
+		res, err = r.method(s, "issubset", r.listOfKeys(twice))
+		if e := check("s.issubset(list(s) + list(s))", res, err, true); e != nil {
+			return e
+		}
+		res, err = r.method(s, "issuperset", r.listOfKeys(twice))
+		if e := check("s.issuperset(list(s) + list(s))", res, err, true); e != nil {
+			return e
+		}
+		if len(all) > 0 {
+			drop := op.K % len(all)
+			fewer := append(append([]int(nil), all[:drop]...), all[drop+1:]...)
+			fewer = append(fewer, fewer...)
+			res, err = r.method(s, "issubset", r.listOfKeys(fewer))
+			if e := check("s.issubset(all elements but one, twice)", res, err, false); e != nil {
+				return e
+			}
+			res, err = r.call(helpers["le"], s, r.setOfKeys(fewer))
+			if e := check("s <= set(all elements but one)", res, err, false); e != nil {
+				return e
+			}
+		}
 	case "proper": // strict subset / superset through < and >
 		ks := dedupe(op.Ks, n)
 		in := map[int]bool{}
@@ -984,7 +1033,7 @@ func TestPropExhaustive(t *testing.T) {
 	}
 }
 
-var dists = []string{"equal", "lowbits", "fewchains", "zeroish", "seq", "int", "str"}
+var dists = []string{"equal", "lowbits", "fewchains", "twochains", "zeroish", "seq", "int", "str"}
 
 func genOp(kind string, nkeys int) *rapid.Generator[Op] {
 	key := rapid.IntRange(0, nkeys-1)
@@ -998,7 +1047,7 @@ func genOp(kind string, nkeys int) *rapid.Generator[Op] {
 				"update_dict", "ior", "union", "clear", "churn", "set", "del"}
 		} else {
 			names = []string{"set", "set", "set", "set", "del", "del", "remove", "pop", "update", "union", "intersection",
-				"difference", "symmetric_difference", "issubset", "issuperset", "proper", "clear", "churn", "set", "del"}
+				"difference", "symmetric_difference", "issubset", "issuperset", "proper", "subset-self", "clear", "churn", "set", "del"}
 		}
 		op := Op{Name: rapid.SampledFrom(names).Draw(t, "op")}
 		switch op.Name {
@@ -1006,6 +1055,8 @@ func genOp(kind string, nkeys int) *rapid.Generator[Op] {
 			op.K = hot.Draw(t, "k")
 			op.V = rapid.IntRange(0, 999).Draw(t, "v")
 			op.Star = rapid.Bool().Draw(t, "star")
+		case "subset-self":
+			op.K = rapid.IntRange(0, 100000).Draw(t, "drop")
 		case "del", "remove":
 			op.K = hot.Draw(t, "k")
 			op.Star = rapid.Bool().Draw(t, "star")
@@ -1037,13 +1088,41 @@ func TestPropHistories(t *testing.T) {
 		c := Case{Kind: rapid.SampledFrom([]string{"dict", "set"}).Draw(t, "kind"),
 			Dist: rapid.SampledFrom(dists).Draw(t, "dist")}
 		maxKeys := 3000
-		if c.Dist == "equal" || c.Dist == "zeroish" || c.Dist == "fewchains" {
+		if c.Dist == "equal" || c.Dist == "zeroish" || c.Dist == "fewchains" || c.Dist == "twochains" {
 			maxKeys = 200 // every operation scans one chain: keep it tractable
 		}
 		c.NKeys = rapid.SampledFrom([]int{3, 9, 20, 64, 150, maxKeys / 4, maxKeys}).Draw(t, "nkeys")
 		c.FullEvery = 97
 		n := rapid.SampledFrom([]int{8, 40, 200, maxOps / 4, maxOps}).Draw(t, "nops")
 		c.Ops = rapid.SliceOfN(genOp(c.Kind, c.NKeys), n, n).Draw(t, "ops")
+		return c
+	})
+}
+
+// Long bucket lists: a set is filled with 130-300 keys that land in two or eight neighbouring bucket lists (each
+// dozens of buckets deep), then whole-set comparisons and ordinary operations alternate.
+func TestPropLongChains(t *testing.T) {
+	vk.Rapid(t, subHistory, vk.N(60, 300), func(t *rapid.T) Case {
+		c := Case{Kind: rapid.SampledFrom([]string{"set", "set", "dict"}).Draw(t, "kind"), Dist: rapid.SampledFrom([]string{"twochains", "twochains", "fewchains", "zeroish"}).Draw(t, "dist")}
+		c.NKeys = rapid.IntRange(130, 300).Draw(t, "nkeys")
+		if c.Dist == "fewchains" {
+			c.NKeys = rapid.IntRange(560, 800).Draw(t, "nkeys8")
+		}
+		c.FullEvery = 50
+		stride := rapid.SampledFrom([]int{1, 3, 7}).Draw(t, "stride")
+		for i := 0; i < c.NKeys; i++ {
+			c.Ops = append(c.Ops, Op{Name: "set", K: (i * stride) % c.NKeys, V: i})
+		}
+		tail := rapid.SliceOfN(genOp(c.Kind, c.NKeys), 20, 60).Draw(t, "tail")
+		for i, o := range tail {
+			if c.Kind == "set" && i%3 == 0 {
+				c.Ops = append(c.Ops, Op{Name: "subset-self", K: rapid.IntRange(0, 100000).Draw(t, "drop")})
+			}
+			if o.Name == "clear" {
+				continue
+			}
+			c.Ops = append(c.Ops, o)
+		}
 		return c
 	})
 }
